@@ -20,6 +20,9 @@ CASES = [
     ('isTypeAhead.name_followed_by_name_is_a_declaration', 'class P { public int v; public constructor(int v) -> P { this.v = v; return this; } }\nfunction main() -> void { P p = new P(3); echo(p.v); }\n', True),
     ('isTypeAhead.only_type_keywords_and_identifiers_can_start_one', 'function main() -> void { int[] a = {1, 2}; a[0] = 5; echo(a[0]); int i = 0; i = i + 1; echo(i); }\n', True),
     ('isTypeAhead.skipTypeArgs.moves_only_onto_a_closing_angle', 'class Box<T> { public T v; public constructor(T v) -> Box<T> { this.v = v; return this; } }\nfunction main() -> void { Box<int> b = new Box<int>(4); int x = 1; boolean c = x < 2; echo(b.v); echo(c); }\n', True),
+    ('parseAssignmentExpression.right_operand_is_an_assignment_expression', 'function main() -> void { int a = 0; int b = 0; int c = 0; a = b = c = 7; echo(a + b + c); }\n', True),
+    ('parseAssignmentExpression.right_operand_is_an_assignment_expression', 'function f(int v) -> int { return v; }\nfunction main() -> void { int a = 0; int b = 0; echo(f(a = b = 2)); echo(a + b); }\n', True),
+    ('parseAssignmentExpression.right_operand_is_an_assignment_expression', 'function main() -> void { int[] arr = {1, 2}; int a = 0; int b = 0; arr[1] = a = b = 5; echo(arr[1] + a + b); }\n', True),
     ('parseType.array_size.value_is_the_literals', 'function main() -> void { int[3] a; a[2] = 7; echo(a[2]); }\n', True),
     ('parseType.array_size.too_large_a_literal_is_reported', 'function main() -> void { int[99999999999] a; echo(1); }\n', False),
     ('parseType.array_size.too_large_a_literal_is_reported', 'function f(int[2147483648] p) -> void { }\nfunction main() -> void { }\n', False),
